@@ -2,6 +2,8 @@
 package vsync
 
 import (
+	"unsafe"
+
 	"verif/engine/vsched"
 )
 
@@ -22,7 +24,7 @@ func (m *Mutex) Lock() {
 		m.locked = true
 		return
 	}
-	vsched.Point("Mutex.Lock", func() bool { return !m.locked })
+	vsched.PointObj("Mutex.Lock", func() bool { return !m.locked }, unsafe.Pointer(m), true)
 	m.locked = true
 }
 
@@ -33,6 +35,7 @@ func (m *Mutex) Unlock() {
 	if !m.locked {
 		panic("sync: unlock of unlocked mutex")
 	}
+	vsched.Touch(unsafe.Pointer(m), true)
 	m.locked = false
 }
 
@@ -40,7 +43,7 @@ func (m *Mutex) TryLock() bool {
 	if vsched.Aborting() {
 		return true
 	}
-	vsched.Point("Mutex.TryLock", nil)
+	vsched.PointObj("Mutex.TryLock", nil, unsafe.Pointer(m), true)
 	if m.locked {
 		return false
 	}
@@ -65,9 +68,9 @@ func (m *RWMutex) Lock() {
 		return
 	}
 	// step 1: announce (blocks new readers); step 2: acquire
-	vsched.Point("RWMutex.Lock/announce", nil)
+	vsched.PointObj("RWMutex.Lock/announce", nil, unsafe.Pointer(m), true)
 	m.writersWaiting++
-	vsched.Point("RWMutex.Lock", func() bool { return !m.writer && m.readers == 0 })
+	vsched.PointObj("RWMutex.Lock", func() bool { return !m.writer && m.readers == 0 }, unsafe.Pointer(m), true)
 	m.writersWaiting--
 	m.writer = true
 }
@@ -79,6 +82,7 @@ func (m *RWMutex) Unlock() {
 	if !m.writer {
 		panic("sync: Unlock of unlocked RWMutex")
 	}
+	vsched.Touch(unsafe.Pointer(m), true)
 	m.writer = false
 }
 
@@ -90,7 +94,7 @@ func (m *RWMutex) RLock() {
 		m.readers++
 		return
 	}
-	vsched.Point("RWMutex.RLock", func() bool { return !m.writer && m.writersWaiting == 0 })
+	vsched.PointObj("RWMutex.RLock", func() bool { return !m.writer && m.writersWaiting == 0 }, unsafe.Pointer(m), false)
 	m.readers++
 }
 
@@ -101,6 +105,7 @@ func (m *RWMutex) RUnlock() {
 	if m.readers <= 0 {
 		panic("sync: RUnlock of unlocked RWMutex")
 	}
+	vsched.Touch(unsafe.Pointer(m), false)
 	m.readers--
 }
 
@@ -127,12 +132,12 @@ func (o *Once) Do(f func()) {
 		}
 		return
 	}
-	vsched.Point("Once.Do", func() bool { return !o.running })
+	vsched.PointObj("Once.Do", func() bool { return !o.running }, unsafe.Pointer(o), true)
 	if o.done {
 		return
 	}
 	o.running = true
-	defer func() { o.running = false; o.done = true }()
+	defer func() { vsched.Touch(unsafe.Pointer(o), true); o.running = false; o.done = true }()
 	f()
 }
 
@@ -144,6 +149,7 @@ func (w *WaitGroup) Add(d int) {
 	if vsched.Aborting() {
 		return
 	}
+	vsched.Touch(unsafe.Pointer(w), true)
 	w.n += d
 	if w.n < 0 {
 		panic("sync: negative WaitGroup counter")
@@ -156,7 +162,7 @@ func (w *WaitGroup) Wait() {
 	if !vsched.Active() {
 		return
 	}
-	vsched.Point("WaitGroup.Wait", func() bool { return w.n == 0 })
+	vsched.PointObj("WaitGroup.Wait", func() bool { return w.n == 0 }, unsafe.Pointer(w), false)
 }
 
 // Pool is a deterministic LIFO free list (object reuse stays visible).
@@ -166,6 +172,7 @@ type Pool struct {
 }
 
 func (p *Pool) Get() interface{} {
+	vsched.Touch(unsafe.Pointer(p), true)
 	if n := len(p.items); n > 0 {
 		x := p.items[n-1]
 		p.items = p.items[:n-1]
@@ -181,5 +188,6 @@ func (p *Pool) Put(x interface{}) {
 	if vsched.Aborting() {
 		return
 	}
+	vsched.Touch(unsafe.Pointer(p), true)
 	p.items = append(p.items, x)
 }
